@@ -45,13 +45,13 @@ T_REQUEST == 30 * TPS                         \* request timer in _send_lines
 T_ENSURE  == 10 * TPS                         \* IpPairing._ensure_connected
 
 NoDeadline == 0
-At(d) == IF Timed THEN now + d ELSE NoDeadline
+LooseBackoff == FALSE
+At(d) == IF Timed THEN (IF LooseBackoff THEN now ELSE now + d) ELSE NoDeadline
 \* Loose back-off (only used as a second opinion in trace validation, see harness/props/ipconn_common.py): the property
 \* demands a growing delay that is positive and never exceeds 60 s, the table above is what the code does today.  With
-\* LooseBackoff (overridden to TRUE by IpConn_Trace_*_loose.cfg) a sleeping connector remembers when it fell asleep
-\* (dl = the instant it fell asleep) and its timer may fire at any later instant d with 0 < d <= 60 s and d >= the previous full
-\* delay of the same connector run (kept in field k).
-LooseBackoff == FALSE
+\* LooseBackoff (overridden to TRUE by IpConn_Trace_*_loose.cfg) every timer remembers when it was armed (dl = that
+\* instant) and may fire at any later instant d with 0 < d <= 60 s ("bounded"); the back-off sleep in addition needs
+\* d >= the previous full delay of the same connector run (kept in field k): growing.
 SleepStart(tk) == tk.dl
 CAP == 60 * TPS
 
@@ -151,7 +151,7 @@ LoopHead(S, t) ==
 SleepNext(S, t) ==   \* back-off: interval = min(60, 1.5 * interval); sleep
     LET k == S.tasks[t].k
     IN [S EXCEPT !.tasks[t] = [@ EXCEPT !.pc = "sleep", !.wake = "none",
-                                       !.dl = IF LooseBackoff /\ Timed THEN now ELSE At(Delay(k)), !.slept = FALSE,
+                                       !.dl = At(Delay(k)), !.slept = FALSE,
                                        !.k = IF LooseBackoff /\ Timed THEN k
                                              ELSE IF MaxK > 0 /\ k >= MaxK THEN k ELSE k + 1]]
 
@@ -260,15 +260,19 @@ TaskRun(t) ==
 TaskTimerDue(t) == Alive(t) /\ tasks[t].wake = "none" /\ tasks[t].pc \in {"tcp", "v1", "v3", "sub", "sleep"}
 TaskTimer(t) ==
     /\ TaskTimerDue(t)
-    /\ Timed => IF LooseBackoff /\ tasks[t].pc = "sleep"
-                THEN LET d == now - SleepStart(tasks[t]) IN d > 0 /\ d <= CAP /\ d >= tasks[t].k
+    /\ Timed => IF LooseBackoff
+                THEN LET d == now - SleepStart(tasks[t])
+                         \* a sleep that follows a (silent, unlogged) time-out began at an unknown instant before `dl`
+                         blind == tasks[t].pc = "sleep" /\ tasks[t].tmo
+                     IN /\ (d > 0 \/ (d = 0 /\ blind)) /\ d <= CAP
+                        /\ (tasks[t].pc = "sleep" /\ ~blind => d >= tasks[t].k)
                 ELSE now = tasks[t].dl
     /\ \E h \in (IF tasks[t].pc = "tcp" THEN tasks[t].rem ELSE {tasks[t].host}) :
        tasks' = [tasks EXCEPT ![t].wake = CASE tasks[t].pc = "tcp" -> "tmo"
                                              [] tasks[t].pc = "sleep" -> "timer"
                                              [] OTHER -> "tmo30",
                               ![t].host = h,
-                              ![t].k = IF Timed /\ LooseBackoff /\ tasks[t].pc = "sleep" THEN now - SleepStart(tasks[t]) ELSE @]
+                              ![t].k = IF Timed /\ LooseBackoff /\ tasks[t].pc = "sleep" /\ ~tasks[t].tmo THEN now - SleepStart(tasks[t]) ELSE @]
     /\ UNCHANGED <<now, socks, cur, closing, closedF, secureF, shutdownF, lock, ref, hosts, descr, failed,
                    nxUsed, callers, attempts, userClosed, subsOk, authEnded>>
 
@@ -379,7 +383,7 @@ CallerResume(c) ==
 CallerTimerDue(c) == callers[c].pc = "wait" /\ callers[c].kind = "pens" /\ callers[c].wake = "none"
 CallerTimer(c) ==
     /\ CallerTimerDue(c)
-    /\ Timed => now = callers[c].dl
+    /\ Timed => IF LooseBackoff THEN now > callers[c].dl /\ now <= callers[c].dl + CAP ELSE now = callers[c].dl
     /\ callers' = [callers EXCEPT ![c].wake = "timeout"]
     /\ UNCHANGED <<now, socks, cur, closing, closedF, secureF, shutdownF, lock, ref, tasks, hosts, descr, failed,
                    nxUsed, attempts, userClosed, subsOk, authEnded>>
@@ -440,9 +444,9 @@ CloseYield(c) ==       \* IpPairing.close(): await asyncio.sleep(0)
                    nxUsed, attempts, userClosed, subsOk, authEnded>>
 
 \* ------------------------------------------------------------------ time
-Deadlines == {(IF LooseBackoff /\ tasks[t].pc = "sleep" THEN SleepStart(tasks[t]) + CAP ELSE tasks[t].dl) :
+Deadlines == {(IF LooseBackoff THEN SleepStart(tasks[t]) + CAP ELSE tasks[t].dl) :
                   t \in {u \in TaskIds : TaskTimerDue(u)}} \cup
-             {callers[c].dl : c \in {d \in Callers : CallerTimerDue(d)}}
+             {(IF LooseBackoff THEN callers[c].dl + CAP ELSE callers[c].dl) : c \in {d \in Callers : CallerTimerDue(d)}}
 \* nothing can run without the passage of time or a new stimulus
 InternalEnabled ==
     \/ \E t \in TaskIds : Alive(t) /\ tasks[t].wake # "none"
